@@ -599,10 +599,13 @@ fn gen(rng: &mut Rng, tier: &str) -> Vec<(String, Value)> {
     for (hi, h) in hists.iter().enumerate() {
         for (wi, walk) in walks.iter().enumerate() {
             let walk: Vec<(usize, usize, usize)> = walk.iter().map(|(a, v, w)| (*a, (*v).min(h.versions.len() - 1), *w)).collect();
-            if !thorough && hi >= 3 && wi == 1 { continue }
+            if !thorough && hi >= 1 && wi == 1 { continue }
+            // quick tier: the full fault list on the first two histories, every fourth fault on the others
+            let stride = if thorough || (hi < 2 && wi == 0) { 1 } else if wi == 1 { 2 } else { 4 };
             let honest = honest_walk(std::slice::from_ref(h), &walk);
             for t in 0..honest.len() {
-                for (name, step, cfg) in faults_of(&honest[t], h, walk[t].1) {
+                for (fi, (name, step, cfg)) in faults_of(&honest[t], h, walk[t].1).into_iter().enumerate() {
+                    if (fi + t + hi) % stride != 0 { continue }
                     let mut steps = honest.clone();
                     steps[t] = step;
                     let (ml, mc) = cfg.unwrap_or((10, 10));
@@ -615,7 +618,7 @@ fn gen(rng: &mut Rng, tier: &str) -> Vec<(String, Value)> {
 
     // (c) a fault in a delta file together with a failing snapshot in the same run, then the honest server again
     for (hi, h) in hists.iter().enumerate() {
-        if !thorough && hi >= 3 { continue }
+        if !thorough && hi >= 2 { continue }
         let last = h.versions.len() - 1;
         let walk = [(0usize, 0usize, 5usize), (0, last.min(2), 5), (0, last.min(2), 5), (0, last, 5)];
         let honest = honest_walk(std::slice::from_ref(h), &walk);
@@ -634,7 +637,7 @@ fn gen(rng: &mut Rng, tier: &str) -> Vec<(String, Value)> {
     }
 
     // (d) random: two sessions, the server moves forward, stays, goes back or changes session; several faults per run
-    let n = if thorough { 6000 } else { 700 };
+    let n = if thorough { 6000 } else { 500 };
     for _ in 0..n {
         let (l1, l2) = (rng.range(2, 5) as usize, rng.range(1, 4) as usize);
         let hs = vec![random_history(rng, 1, l1), random_history(rng, 2, l2)];
